@@ -165,8 +165,9 @@ func checkAlwaysAvailableFile(fpath string) error {
 
 // FindPathConf returns the configuration corresponding to the given path name.
 func FindPathConf(pathConfs map[string]*Path, name string) (*Path, []string, error) {
-	// static path configuration
-	if pathConf, ok := pathConfs[name]; ok {
+	// static path configuration.
+	// keys of regexp path configurations are not path names.
+	if pathConf, ok := pathConfs[name]; ok && pathConf.Regexp == nil {
 		return pathConf, nil, nil
 	}
 
